@@ -1372,6 +1372,13 @@ PROPS["C02"]["level_text"] = PROPS["C02"]["level_text"] + (
     " And at match time: regexTree.match (tree.go), translated on every run (Gen/RegexTreeCode.lean; the parameter map the method "
     "stores into is an extra result), is proved in Props/C02TreeCode to answer what the model's treeMatch answers for a regex node: "
     "every named bind set to the submatch of its own group, the groups of a user's own expression skipped (tree_match_refines).")
+for _pid in ("C01", "C02"):
+    PROPS[_pid]["code_modules"] = PROPS[_pid]["code_modules"] + ["Flamego.Props.C01LeafCode"]
+    PROPS[_pid]["level_text"] = PROPS[_pid]["level_text"] + (
+        " The match-all leaf too: matchAllLeaf.match / matchAll (leaf.go), translated on every run (Gen/AllLeafCode.lean; matchHeader, "
+        "inherited from baseLeaf, is a parameter), are proved in Props/C01LeafCode to be the index-level model's matchAllLeafIdx for a "
+        "position inside the path: refused when the capture limit is positive and smaller than the number of remaining segments, refused "
+        "when the header constraints fail, else the bind is segment + \"/\" + path[next:] (matchAll_refines, match_refines).")
 _ALL = ['C01', 'C02', 'C03', 'C04', 'C05', 'C06', 'C07', 'C08', 'C09', 'C10', 'C11', 'C12', 'C13', 'C14', 'C15', 'C16', 'C17', 'C18']
 NOT_APPLICABLE = [
     {"property_id": p, "reason": "check not built yet in this revision (work in progress; see DESIGN.md §11 for the plan)"}
